@@ -122,6 +122,20 @@ CLAIMED = {
          "a truth-table oracle.",
     note="Trusted: Coq kernel + vm_compute; no axioms; hand-written model of the logic methods of _pcbo.py and of sat/; harness.",
     technique="Coq proof (case analysis over the 16 methods on top of C02/C05/C07 theorems) + model/implementation correspondence", ref="§5 C06"),
+ "C03": dict(
+    text="Coq theorem C03_constraint: for each of the six relations, every branch, every lam <> 0, every spin polynomial that "
+         "is integer valued on spins and mentions no ancilla, omitted / partial / valid bounds: the terms PCSO.add_constraint_R_zero "
+         "adds are lam * G at every +1/-1 assignment with G >= 0, G = 0 reachable by setting only the fresh ancilla spins exactly "
+         "when H(z) R 0, G >= 1 otherwise (unless warned unsatisfiable); the constraint is recorded, the counter handed to the "
+         "helper PCBO and taken back covers the fresh block. Proved by composing C02's theorem with C04's conversion theorems "
+         "along the route the source takes (puso_to_pubo, helper PCBO seeded with the counter, pubo_to_puso, +=). C03_valid_iff, "
+         "C03_sequence / C03_ancilla_blocks for sequences on one PCSO. Tied to /repo by exact comparison of terms, ancilla "
+         "count, recorded constraints, warnings, variables after every call of random sequences + enumeration oracle on spins.",
+    note="Trusted: Coq kernel + vm_compute; no axioms; hand-written model of _pcso.py on the C02/C04/C05 models; harness. "
+         "'num_ancillas covers every ancilla present' is proved semantically (the penalty is minimised by moving only the block "
+         "below the counter) and checked syntactically on the implementation by the oracle; float factors of the conversions are "
+         "exact on the dyadic coefficients generated.",
+    technique="Coq proof (composition of the C02 and C04 theorems through the helper-PCBO route) + model/implementation correspondence", ref="§5 C03"),
 }
 NA_REASON = "check not built yet in this round; see DESIGN.md §8 (order of work)"
 
